@@ -1,0 +1,13 @@
+//go:build verif
+
+package codec
+
+import "github.com/icon-project/goloop/common/intconv"
+
+// Lemma functions for govc (see /verif/DESIGN.md). Built only with -tags verif, never called.
+
+// the bytes the RLP byte layer emits for an unsigned integer value (what WriteValue does for the
+// reflect.Uint kinds)
+func verifLemmaUintKey(w *rlpWriter, v uint64) error {
+	return w.writeBytes(intconv.Uint64ToBytes(v))
+}
